@@ -1,6 +1,7 @@
 from __future__ import annotations
 
 import asyncio
+import sys
 import time
 from typing import Any, AsyncIterator, Iterable, Mapping
 from uuid import uuid4
@@ -14,6 +15,8 @@ from cashews.utils import Bitarray
 _empty = object()
 _GLOBAL_LOCK_KEY = ":serializable:lock"
 _LOCK_PREFIX = ":tx_lock"
+# the write buffer of a transaction is not a cache: it must never evict a pending write
+_BUFFER_SIZE = sys.maxsize
 
 
 class TransactionBackend(Backend):
@@ -27,7 +30,7 @@ class TransactionBackend(Backend):
 
     def __init__(self, backend: Backend):
         self._backend = backend
-        self._local_cache = Memory()
+        self._local_cache = Memory(size=_BUFFER_SIZE)
         self._to_delete: set[Key] = set()
         super().__init__()
         self._id = backend._id
@@ -73,7 +76,7 @@ class TransactionBackend(Backend):
         self._clear_local_storage()
 
     def _clear_local_storage(self):
-        self._local_cache = Memory()
+        self._local_cache = Memory(size=_BUFFER_SIZE)
         self._to_delete = set()
 
     def on_remove_callback(self, callback: OnRemoveCallback):
